@@ -640,7 +640,23 @@ def gen_placeholders(seed, tier):
             seen.add(tuple(rnd.choice(c) for c in comps))
         combos = sorted(seen)
     else:
-        combos = itertools.product(args, fills, signs, alts, zeros, widths, precs, types, wss)
+        # thorough: every *pair* of component values occurs together (all-pairs over the 9 components), every single
+        # variation around the bases, plus 400k random points of the 13M-point product (the full product needs tens of
+        # GB once de-duplicated and is not affordable in this sandbox)
+        rnd = random.Random((seed or 1) * 31337)
+        seen = set()
+        comps = [args, fills, signs, alts, zeros, widths, precs, types, wss]
+        for i in range(len(comps)):
+            for j in range(i + 1, len(comps)):
+                for vi in comps[i]:
+                    for vj in comps[j]:
+                        for _ in range(3):
+                            t = [rnd.choice(c) for c in comps]
+                            t[i], t[j] = vi, vj
+                            seen.add(tuple(t))
+        for _ in range(400000):
+            seen.add(tuple(rnd.choice(c) for c in comps))
+        combos = sorted(seen)
     for a, f, s, al, z, w, p, t, ws in combos:
         spec = f + s + al + z + w + p + t
         if spec:
@@ -728,7 +744,7 @@ def rule_peg_equiv(ctx):
             f"the literal parser disagrees with std::fmt ({cls}) on {len(ex_s)} generated literals, e.g. {ex_s[0]!r}: std reads {ref_parse(ex_s[0])}, the parser reads {model_parse(interp, ex_s[0])}",
             {"examples": ex_s[:10]},
         )
-    ctx.floor("literals compared", n, 20000 if ctx.tier != "thorough" else 200000)
+    ctx.floor("literals compared", n, 20000 if ctx.tier != "thorough" else 400000)
 
 
 def classify_diff(s, ref, mod, kind):
@@ -820,7 +836,7 @@ def rule_single_placeholder(ctx):
     seen = set()
     phs = list(dict.fromkeys(gen_placeholders(ctx.seed, ctx.tier)))
     rnd = random.Random((ctx.seed or 1) * 104729)
-    sample = phs if ctx.tier == "thorough" else rnd.sample(phs, min(len(phs), 2500))
+    sample = rnd.sample(phs, min(len(phs), 2500 if ctx.tier != "thorough" else 30000))
     for p in sample:
         for h in heads:
             for tl in tails:
